@@ -304,9 +304,18 @@ class ArrInterp(ResultInterp):
                     return
                 if idx.kind == "notin" and v == 0:
                     base.selection = ("keep", idx.detail)
+                    base.keep_source = (idx.of_vid, repr(idx.detail))  # values the membership was computed from
                     return
                 if idx.kind == "zero":
                     return
+            if isinstance(idx, AMask) and idx.kind == "isin" and v == 1 and getattr(base, "keep_source", None) == (idx.of_vid, repr(idx.detail)):
+                # membership in the kept label set, computed before everything else was zeroed:
+                # (labels are > 0) these are exactly the voxels that are non-zero now
+                if base.content == "labels" and base.casts:
+                    base.content = f"opaque:binarised after narrowing cast {base.casts}"
+                elif base.content in ("labels", "bin", "bool"):
+                    base.content = "bin"
+                return
             base.content = f"opaque:store {idx!r} = {v!r}"
             return
         return super().store_subscript_hook(base, idx, v, node)
@@ -329,6 +338,18 @@ class ArrInterp(ResultInterp):
                     # x = (x != 0) in place: the array is binarised
                     self.store_subscript_hook(tgt, AMask(tgt, "nonzero"), 1, node)
                     return tgt
+        if name in ("numpy.logical_not", "numpy.invert", "numpy.bitwise_not") and args and isinstance(args[0], AMask) and not (set(kwargs) - {"out"}):
+            m = args[0]
+            flip = {"nonzero": "zero", "zero": "nonzero", "isin": "notin", "notin": "isin"}.get(m.kind)
+            tgt = args[1] if len(args) > 1 else out_arr
+            if flip:
+                if tgt is None:
+                    nm = AMask(m.of, flip, m.detail)
+                    nm.of_vid = m.of_vid
+                    return nm
+                if tgt is m:
+                    m.kind = flip
+                    return m
         if isinstance(out_arr, AArr):
             self.root.stores.append((node, out_arr, "out=", None, out_arr.is_fresh()))
         if name in ("numpy.copyto", "numpy.put", "numpy.place", "numpy.putmask") and args and isinstance(args[0], AArr):
